@@ -9,7 +9,8 @@ ALL_KINDS = ["halton", "rseq", "uniform", "best", "pso", "xgb", "rf", "gp", "cor
 HISTORY_FREE = ["halton", "rseq", "uniform", "pso"]
 CLASS_NAMES = {"halton": "HaltonSampler", "rseq": "RSequenceSampler", "uniform": "RandomUniformSampler",
                "best": "BestBatchSampler", "pso": "ParticleSwarmSampler", "xgb": "XGBoostSampler",
-               "rf": "RandomForestSampler", "gp": "GaussianProcessSampler", "cors": "CORSSampler"}
+               "rf": "RandomForestSampler", "gp": "GaussianProcessSampler", "cors": "CORSSampler",
+               "nested": "LocalUniformSampler"}
 
 
 # ---- search spaces ---------------------------------------------------------------------------------------------------
@@ -29,7 +30,8 @@ def space_spec(draw, min_d=1, max_d=6, max_m=300, wide=False):
         if not (h - l >= p):  # rounding guard: keep the spec well-formed
             h = l + (m + 1) * p
         lo.append(float(l)), hi.append(float(h)), prec.append(float(p))
-    return {"lo": lo, "hi": hi, "prec": prec}
+    # how the declaration is typed: plain lists (default), or arrays of numpy's extended-precision float
+    return {"lo": lo, "hi": hi, "prec": prec, "decl": draw(st.sampled_from(["list"] * 9 + ["longdouble"]))}
 
 
 UNIT = {"lo": [0.0, 0.0], "hi": [1.0, 1.0], "prec": [0.01, 0.01]}
@@ -38,6 +40,9 @@ UNIT = {"lo": [0.0, 0.0], "hi": [1.0, 1.0], "prec": [0.01, 0.01]}
 def make_space(spec):
     from black_it.search_space import SearchSpace
 
+    if spec.get("decl") == "longdouble":
+        return SearchSpace(np.array([spec["lo"], spec["hi"]], dtype=np.longdouble), np.array(spec["prec"], dtype=np.longdouble),
+                           verbose=False)
     return SearchSpace([spec["lo"], spec["hi"]], spec["prec"], verbose=False)
 
 
@@ -129,6 +134,9 @@ def make_sampler(s, max_samples=1000, seed_override="spec"):
         return RSequenceSampler(bs, random_state=seed, max_deduplication_passes=dd)
     if k == "uniform":
         return RandomUniformSampler(bs, random_state=seed, max_deduplication_passes=dd)
+    if k == "nested":   # a user-defined sampler class that lives inside another class
+        from harness.stubs import UserSamplers
+        return UserSamplers.LocalUniformSampler(bs, random_state=seed, max_deduplication_passes=dd)
     if k == "best":
         return BestBatchSampler(bs, random_state=seed, max_deduplication_passes=dd, a=s.get("a", 3.0), b=s.get("b", 1.0),
                                 perturbation_range=s.get("prange", 6))
